@@ -85,7 +85,8 @@ def work(job):
     lock = None
     if kind == "gen":
         t = trees.gen_tree(rnd, nfiles=rnd.choice([1, 2, 3, 5]), stmts=(1, 25), structured=structured,
-                           idclass=rnd.choice(["none", "dense", "gaps", "zero", "mid"]), label="g%d" % i)
+                           idclass=rnd.choice(["none", "dense", "gaps", "zero", "mid", "high"]), label="g%d" % i,
+                           directives=rnd.random() < 0.3, complete_prob=rnd.choice([0.0, 0.0, 0.5]))
         files = dict(t.files)
         if rnd.random() < 0.4:
             d = rnd.choice(["// breadlog:ignore", "/* breadlog:no-kvp */", "// BREADLOG:NO-KVP"])
